@@ -167,6 +167,25 @@ fn bits_of(index: u64, n: usize) -> Vec<Challenge> {
     (0..n).map(|i| if (index >> i) & 1 == 1 { Challenge::ONE } else { Challenge::ZERO }).collect()
 }
 
+/// `idft` correspondence line: the constants `Radix2Dit::coset_idft(col, s)` uses (twiddle root
+/// `two_adic_generator(log m)`, `divide_by_height`'s `ONE.div_2exp_u64(log m)`, `s.inverse()`), the
+/// column, and — as the implementation's answer — the coefficient vector it returned. The Lean
+/// driver recomputes the vector from the column with `P3R.Idft.cosetIdftLoop` and checks the
+/// hypotheses of `P3R.C20.cosetIdft_interpolates` on the constants (`ok`).
+fn idft_lines(col: &[F], sub_shift: F, cs: &[F]) -> (String, String) {
+    let log_p = col.len().trailing_zeros() as usize;
+    let w = F::two_adic_generator(log_p);
+    let m_inv = F::ONE.div_2exp_u64(log_p as u64);
+    let s_inv = sub_shift.inverse();
+    let l = |x: F| fmt(lift(x));
+    let cols: Vec<Challenge> = col.iter().map(|c| lift(*c)).collect();
+    let cse: Vec<Challenge> = cs.iter().map(|c| lift(*c)).collect();
+    (
+        format!("idft {TAG} {log_p} {} {} {} {} {}", l(w), l(m_inv), l(sub_shift), l(s_inv), fmts(&cols)),
+        format!("idft ok {}", fmts(&cse)),
+    )
+}
+
 pub fn execute(spec: &Spec) -> Option<Res> {
     let config = make_test_config();
     let pcs: &MyPcs = config.pcs();
@@ -193,6 +212,7 @@ pub fn execute(spec: &Spec) -> Option<Res> {
                 notes,
                 verdict,
                 circuit_ok: matches!(out, Out::Vals(_)),
+                extra: vec![],
             })
         }
         "expc" => {
@@ -224,6 +244,7 @@ pub fn execute(spec: &Spec) -> Option<Res> {
                 notes,
                 verdict,
                 circuit_ok: matches!(out, Out::Vals(_)),
+                extra: vec![],
             })
         }
         "van" | "sel" => {
@@ -245,6 +266,7 @@ pub fn execute(spec: &Spec) -> Option<Res> {
                     notes,
                     verdict,
                     circuit_ok: matches!(out, Out::Vals(_)),
+                    extra: vec![],
                 });
             }
             let out = run_gadget(&[x], |cb, ins| {
@@ -278,6 +300,7 @@ pub fn execute(spec: &Spec) -> Option<Res> {
                 notes,
                 verdict,
                 circuit_ok: matches!(out, Out::Vals(_)),
+                extra: vec![],
             })
         }
         "quot" => {
@@ -380,6 +403,7 @@ pub fn execute(spec: &Spec) -> Option<Res> {
                 notes,
                 verdict,
                 circuit_ok: matches!(out, Out::Vals(_)),
+                extra: vec![],
             })
         }
         "perm" => {
@@ -421,6 +445,7 @@ pub fn execute(spec: &Spec) -> Option<Res> {
                 notes,
                 verdict,
                 circuit_ok: matches!(out, Out::Vals(_)),
+                extra: vec![idft_lines(last, sub_shift, &cs)],
             })
         }
         "per" => {
@@ -454,11 +479,13 @@ pub fn execute(spec: &Spec) -> Option<Res> {
                     notes,
                     verdict,
                     circuit_ok: false,
+                    extra: vec![],
                 });
             }
             let log_p = period.trailing_zeros() as usize;
             let folds = log_n - log_p;
             notes.push(format!("per.period.{period}.folds.{}", if folds == 0 { "0" } else { "pos" }));
+            notes.push(format!("idft.model-recomputes-coeffs.m.{period}"));
             let sub_shift = d.shift().exp_power_of_2(folds);
             let cs: Vec<F> = Radix2Dit::default().coset_idft(col.clone(), sub_shift);
             // build-time iDFT postcondition (hypothesis of periodic_interpolates): the coefficient
@@ -489,6 +516,7 @@ pub fn execute(spec: &Spec) -> Option<Res> {
                 notes,
                 verdict,
                 circuit_ok: matches!(out, Out::Vals(_)),
+                extra: vec![idft_lines(&col, sub_shift, &cs)],
             })
         }
         "poly" => {
@@ -521,6 +549,7 @@ pub fn execute(spec: &Spec) -> Option<Res> {
                 notes,
                 verdict,
                 circuit_ok: matches!(out, Out::Vals(_)),
+                extra: vec![],
             })
         }
         "fqp" => {
@@ -556,6 +585,7 @@ pub fn execute(spec: &Spec) -> Option<Res> {
                 notes,
                 verdict,
                 circuit_ok: matches!(out, Out::Vals(_)),
+                extra: vec![],
             })
         }
         "evp" => {
@@ -614,6 +644,7 @@ pub fn execute(spec: &Spec) -> Option<Res> {
                 notes,
                 verdict,
                 circuit_ok: matches!(out, Out::Vals(_)),
+                extra: vec![],
             })
         }
         _ => None,
